@@ -342,10 +342,16 @@ def main():
             t = l.split()
             if len(t) == 4 and prng.random() < 0.3:
                 t[1] = prng.choice(["0", "2"])
-                t[3] = prng.choice(["0", "0.01"])
+                t[3] = prng.choice(["0", "0.01", "0.001234567"])
+            if len(t) == 4 and "::" not in t[0] and prng.random() < 0.25:
+                t[2] = prng.choice(["1019.461", "0.12345678", "-2.9639512", "493.67701"])      # more than six significant digits
             rest2.append("   ".join(t))
         if i % 2 == 0:
             rest2.append("sA_0   2   -0.15   0")          # the K-matrix parameter the shipped file lacks (O9)
+        if i % 3 == 2:
+            # lines an option file may carry and the converter skips: a single-component decay line, a particle alias line
+            body2.append(body2[0].split()[0].replace("D0{", "D0[P]{", 1) + "   0   0.362058   0.00237314")
+            body2.append("Kbar(1)(1400)- = K(1)(1400)bar-")
         texts.append("\n".join(ev + (["FastCoherentSum::UseCartesian 1"] if i % 3 == 1 else []) + body2 + rest2) + "\n")
     cases = []
     for i, t in enumerate(texts):
